@@ -654,6 +654,15 @@ func checkBadfilterFilter(c *Ctx, filter, twin *ssa.Function, kBad int64) {
 				continue
 			}
 			recvOK := call.Args[0].Op == "bvar" && collVals[at.Args[0]]
+			// the list that is scanned must be the same for every candidate: not a value carried
+			// around the candidate loop (shrunk, reordered or replaced after a hit)
+			for _, hi := range candLoop.Header.Instrs {
+				if ph, isPhi := hi.(*ssa.Phi); isPhi && s.Env[ph] == at.Args[0] {
+					recvOK = false
+					c.Fail("C08.R1", shortFn(filter)+": collection holds every badfilter rule of the input", em.call.Pos(),
+						"the list of badfilter rules that is scanned changes from one candidate to the next (it is reassigned inside the candidate loop, e.g. a badfilter rule is removed once it has disabled one rule): a second copy of the disabled rule, from another list, is then kept")
+				}
+			}
 			pos := pr == u.Atom(call)
 			guarded := u.bdd.Implies(rc, u.bdd.Not(u.Atom(at)))
 			scanOK = true
